@@ -175,6 +175,9 @@ func propC13(c *Ctx, r *Report) {
 	r.Extra["functions_reachable_from_pass_entries"] = len(reach)
 	c.runWalkAll(r, "handlewalk", "passes", inPkgs("ir", "dxil/internal/passes"), reachFilter(reach), true, true, nil)
 	c.runRebuild(r, "rebuild.complete", "passes.rebuilds", inPkgs("ir", "dxil/internal/passes", "msl/internal/codegen"), nil)
+	r.Clauses = append(r.Clauses, "per-arm state (E16): inside a loop over the arms of a branching statement a pass never assigns a loop-invariant map itself to its map-typed state field (only a copy, nil, make or a literal), so arms do not share one map")
+	c.runLoopStateAlias(r, "alias.loopstate", inPkgs("ir", "dxil/internal/passes"))
+	r.floor("alias.loopstate.copysites", 1)
 	r.Clauses = append(r.Clauses, orderClause+" - here: the passes of package ir and dxil/internal/passes")
 	c.runOperandOrder(r, "order.ir", inPkgs("ir", "dxil/internal/passes"))
 	r.floor("order.ir", orderFloors["ir"])
